@@ -33,6 +33,8 @@ func (p *Path) requireASCIIRune(r Value, what string) {
 	}
 }
 
+type replacerState struct{ pairs []Value }
+
 func sliceStr(v Value) Value {
 	switch x := v.(type) {
 	case Slice:
@@ -177,6 +179,42 @@ func init() {
 		}
 		return Slice{A: out}
 	}
+	// strings.NewReplacer / Replace: at every position the first old string (in argument order)
+	// that matches is replaced, matches do not overlap
+	models["strings.NewReplacer"] = func(p *Path, fn *ssa.Function, a []Value) Value {
+		sl := a[0].(Slice)
+		if len(sl.A)%2 == 1 {
+			p.goPanicf("strings.NewReplacer: odd argument count")
+		}
+		return &Native{V: &replacerState{pairs: append([]Value(nil), sl.A...)}}
+	}
+	models["(*strings.Replacer).Replace"] = func(p *Path, fn *ssa.Function, a []Value) Value {
+		r := a[0].(*Native).V.(*replacerState)
+		s := a[1]
+		n := strLen(s)
+		var out []Value
+		for i := 0; i < n; {
+			matched := false
+			for k := 0; k+1 < len(r.pairs); k += 2 {
+				old := r.pairs[k]
+				ol := strLen(old)
+				if ol == 0 {
+					panic(unsupported("strings.Replacer with an empty old string"))
+				}
+				if i+ol <= n && p.decideVal(p.matchAt(s, i, old)) {
+					out = append(out, strBytes(r.pairs[k+1])...)
+					i += ol
+					matched = true
+					break
+				}
+			}
+			if !matched {
+				out = append(out, strAt(s, i))
+				i++
+			}
+		}
+		return mkStr(out)
+	}
 	models["strings.EqualFold"] = func(p *Path, fn *ssa.Function, a []Value) Value {
 		return p.strEq(p.mapCase(a[0], true), p.mapCase(a[1], true))
 	}
@@ -230,8 +268,36 @@ func init() {
 	models["(*sync.RWMutex).RUnlock"] = models["(*sync.Mutex).Lock"]
 	// read-only file access for translator-validation vectors: the repository's own data
 	// files, resolved relative to the harness package directory (as `go test` does)
+	writeFile := func(p *Path, fn *ssa.Function, a []Value) Value {
+		name := concreteString(a[0], "file name")
+		if p.files == nil {
+			p.files = map[string][]Value{}
+		}
+		sl, _ := a[1].(Slice)
+		if len(sl.A) == 1 {
+			if n, ok := sl.A[0].(*Native); ok {
+				if _, isBlob := n.V.(*jsonBlob); isBlob {
+					p.files[name] = sl.A
+					return Iface{}
+				}
+			}
+		}
+		p.files[name] = append([]Value(nil), sl.A...)
+		p.stubsHit["file system: in-memory files for Write*/Read* of the code under test"] = true
+		return Iface{}
+	}
+	models["io/ioutil.WriteFile"] = writeFile
+	models["os.WriteFile"] = writeFile
+	models["os.TempDir"] = func(p *Path, fn *ssa.Function, a []Value) Value { return "/tmp" }
+	models["os.Remove"] = func(p *Path, fn *ssa.Function, a []Value) Value {
+		delete(p.files, concreteString(a[0], "file name"))
+		return Iface{}
+	}
 	readFile := func(p *Path, fn *ssa.Function, a []Value) Value {
 		name := concreteString(a[0], "file name")
+		if data, ok := p.files[name]; ok {
+			return Tuple{Slice{A: append([]Value(nil), data...)}, Iface{}}
+		}
 		full := name
 		if !strings.HasPrefix(name, "/") {
 			full = repoDir + "/" + p.harnessRel + "/" + name
